@@ -165,8 +165,12 @@ class Ref:
             if isinstance(a, str) or isinstance(b, str):
                 sa = a if isinstance(a, str) else (fmt_float(a) if isinstance(a, float) else str(a))
                 sb = b if isinstance(b, str) else (fmt_float(b) if isinstance(b, float) else str(b))
+                if len(sa) + len(sb) > 60000:
+                    raise Unspecified("string near the configured size limit")
                 return sa + sb
             if isinstance(a, list):
+                if len(a) + len(b) > 10000:
+                    raise Unspecified("array near the configured size limit")
                 return a + b
             if isinstance(a, dict):
                 d = dict(a); d.update(b); return d
